@@ -494,7 +494,8 @@ package index
 // deletes that happened while it was being built
 // ---------------------------------------------------------------------------
 //@ func Writer.introduceMerge(nextMerge, introduceSnapshotEpoch)
-//@   props C06
+//@   props C06 C05
+//@   effect {C05} lastEpochHanded == introduceSnapshotEpoch
 //@   heap_wf
 //@   requires s != nil && nextMerge != nil
 //@   modifies *
@@ -508,7 +509,8 @@ package index
 
 // swapping in persisted copies: same segments (by id), same deletes, same offsets, position by position
 //@ func Writer.introducePersist(persist, introduceSnapshotEpoch)
-//@   props C06
+//@   props C06 C05
+//@   effect {C05} lastEpochHanded == introduceSnapshotEpoch
 //@   heap_wf
 //@   requires s != nil && persist != nil
 //@   modifies *
@@ -539,7 +541,8 @@ package index
 //@   ensures c == segCount(iref(recv))
 
 //@ func Writer.introduceSegment(next, introduceSnapshotEpoch) (err)
-//@   props C01
+//@   props C01 C05
+//@   effect {C05} lastEpochHanded == introduceSnapshotEpoch
 //@   requires s != nil && next != nil
 //@   requires [obsoletes-hold-bitmaps] forall k uint64 :: has(next.obsoletes, k) ==> next.obsoletes[k] != nil
 //@   modifies *
@@ -550,3 +553,24 @@ package index
 //@   at call replaceRoot: assert [new-root-carries-the-new-epoch] newSnapshot.epoch == introduceSnapshotEpoch
 //@   at call Persisted: assert [a-segment-is-left-out-only-when-no-document-of-it-is-live] (len(newSnapshot.segment) > 0 && newSnapshot.segment[len(newSnapshot.segment) - 1] == newss) || int64(uint64(segCount(iref(newss.segment.Segment)) - ite(newss.deleted != nil, bmCard(newss.deleted), 0))) <= 0
 //@   at call replaceRoot: assert [the-batch-segment-comes-last] next.data != nil ==> (len(newSnapshot.segment) > 0 && newSnapshot.segment[len(newSnapshot.segment) - 1].id == next.id && newSnapshot.segment[len(newSnapshot.segment) - 1].segment == next.data && newSnapshot.segment[len(newSnapshot.segment) - 1].deleted == nil)
+
+// ---------------------------------------------------------------------------
+// C05 (sub-claims): there is one serialisation point. Every change of the root is made by the
+// introducer goroutine, one introduction at a time, each under a strictly larger epoch than the one
+// before (the new root carries that epoch: C01 / C06), and the root pointer itself is read and
+// written under rootLock only (C15).
+// ---------------------------------------------------------------------------
+//@ ghost var lastEpochHanded uint64
+//@ func Writer.introducerLoop
+//@   props C05
+//@   requires s != nil && nextSnapshotEpoch > lastEpochHanded
+//@   modifies *
+//@   at call introduceSegment: assume next != nil && (forall k uint64 :: has(next.obsoletes, k) ==> next.obsoletes[k] != nil)
+//@   at call introduceMerge: assume nextMerge != nil
+//@   at call introducePersist: assume persist != nil
+//@   at call AddUint64: assume [the-epoch-counter-does-not-wrap-around] nextSnapshotEpoch < 18446744073709551615
+//@   at call introduceSegment: assert [epochs-strictly-increase] introduceSnapshotEpoch > lastEpochHanded
+//@   at call introduceMerge: assert [epochs-strictly-increase] introduceSnapshotEpoch > lastEpochHanded
+//@   at call introducePersist: assert [epochs-strictly-increase] introduceSnapshotEpoch > lastEpochHanded
+//@   loop 1
+//@     invariant nextSnapshotEpoch > lastEpochHanded
